@@ -8,6 +8,7 @@ import (
 	"github.com/ash2k/stager/wait"
 
 	"github.com/atlassian/gostatsd"
+	"github.com/atlassian/gostatsd/internal/verifhook"
 	"github.com/atlassian/gostatsd/pkg/stats"
 )
 
@@ -292,6 +293,7 @@ func (ch *CloudHandler) updateAndDispatchEvents(ctx context.Context, instance *g
 	for _, e := range events {
 		updateInplace(e, instance)
 		dispatched++
+		verifhook.Yield("cloudhandler.events.before-dispatch", e)
 		ch.handler.DispatchEvent(ctx, e)
 	}
 }
